@@ -105,7 +105,8 @@ class RankCtx:
                 first = first + acc
         outputs = dict(outputs)
         outputs[names[0]] = first
-        return pt.make_dict_of_named_arrays(outputs)
+        self.outputs = pt.make_dict_of_named_arrays(outputs)
+        return self.outputs
 
 
 class NotApplicable(Exception):
@@ -495,5 +496,113 @@ def check_numbering(sym_parts, num_parts, base_tag, next_tags):
              if isinstance(n, int)):
         bad.append("an assigned tag is >= next_tag")
     return bad
+
+# }}}
+
+
+# {{{ global data flow: what a partition / the unpartitioned graph computes
+
+def _subst_mapper(fn):
+    """CopyMapper that replaces placeholders / receives / send holders via
+    *fn(kind, node)* (returning an array or None to keep)."""
+    from pytato.transform import CopyMapper
+
+    class M(CopyMapper):
+        def map_placeholder(self, expr):
+            r = fn("placeholder", expr)
+            return expr if r is None else r
+
+        def map_distributed_recv(self, expr):
+            r = fn("recv", expr)
+            if r is None:
+                raise ValueError("receive left in place")
+            return r
+
+        def map_distributed_send_ref_holder(self, expr):
+            return self.rec(expr.passthrough_data)
+    return M()
+
+
+def global_original(outputs_by_rank):
+    """rank -> {output name: expression over the ranks' inputs only}: every
+    receive is replaced by the data of the matching send on the source rank
+    (the unpartitioned global data-flow graph)."""
+    from pytato.distributed.nodes import DistributedSendRefHolder
+    from pytato.transform import CachedWalkMapper
+    sends = {}       # (src, dest, repr(tag)) -> data expression
+
+    for r, outs in enumerate(outputs_by_rank):
+        found = []
+
+        class W(CachedWalkMapper):
+            def get_cache_key(self, expr):
+                return id(expr)
+
+            def post_visit(self, expr):
+                if isinstance(expr, DistributedSendRefHolder):
+                    found.append(expr.send)
+        W()(outs)
+        for s in found:
+            sends[(r, s.dest_rank, repr(s.comm_tag))] = s.data
+    memo = {}
+
+    def inline(r, expr, depth=0):
+        if depth > 50:
+            raise ValueError("cyclic global data flow")
+        key = (r, id(expr))
+        if key not in memo:
+            def fn(kind, node):
+                if kind == "recv":
+                    k = (node.src_rank, r, repr(node.comm_tag))
+                    return inline(node.src_rank, sends[k], depth + 1)
+                return None
+            memo[key] = (expr, _subst_mapper(fn)(expr))
+        return memo[key][1]
+    return [{name: inline(r, outs[name].expr) for name in outs}
+            for r, outs in enumerate(outputs_by_rank)]
+
+
+def global_partitioned(partitions, inputs_by_rank):
+    """rank -> {overall output name: expression over the ranks' inputs}: the
+    value the parts compute when every received name carries the data the
+    matching send posts and every part-output name its expression."""
+    send_data = {}
+    for r, p in enumerate(partitions):
+        for part in p.parts.values():
+            for sends in part.name_to_send_nodes.values():
+                for s in sends:
+                    send_data[(r, s.dest_rank, repr(s.comm_tag))] = s.data
+    memo = {}
+
+    def inline(r, expr, depth=0):
+        if depth > 80:
+            raise ValueError("cyclic partitioned data flow")
+        key = (r, id(expr))
+        if key in memo:
+            return memo[key][1]
+        p = partitions[r]
+        recvs = {}
+        for part in p.parts.values():
+            recvs.update(part.name_to_recv_node)
+
+        def fn(kind, node):
+            if kind == "recv":
+                raise ValueError("communication node inside a part")
+            name = node.name
+            if name in recvs:
+                rv = recvs[name]
+                return inline(rv.src_rank,
+                              send_data[(rv.src_rank, r, repr(rv.comm_tag))],
+                              depth + 1)
+            if name in p.name_to_output:
+                return inline(r, p.name_to_output[name], depth + 1)
+            if name in inputs_by_rank[r]:
+                return inputs_by_rank[r][name]
+            raise ValueError(f"rank {r}: name '{name}' is defined nowhere")
+        memo[key] = (expr, _subst_mapper(fn)(expr))
+        return memo[key][1]
+    return [{name: inline(r, p.name_to_output[name])
+             for name in p.overall_output_names}
+            for r, p in enumerate(partitions)]
 
 # }}}
